@@ -519,11 +519,12 @@ class SymInt:
         if (ta is None or tb is None) and w <= 160:
             # masking with a constant is how fields are extracted: let z3 fold it (a field of a
             # partly concrete word often is a plain number)
-            t = z3.simplify(t)
-            if z3.is_bv_value(t):
-                v = t.as_signed_long()
+            ts = z3.simplify(t)
+            if z3.is_bv_value(ts):
+                v = ts.as_signed_long()
                 if lo <= v <= hi:
                     return v
+            # otherwise keep the unsimplified term: rewriting would change shared sub-terms
         return mk(t, lo, hi)
 
     __rand__ = __and__
